@@ -100,7 +100,7 @@ func registerVerifVM() {
 }
 
 func (m *vmModule) NewInstance(context.Context) (wasm.Instance, error) { return vmInstance{}, nil }
-func (m *vmModule) Close(context.Context) error                         { return nil }
+func (m *vmModule) Close(context.Context) error                        { return nil }
 
 func branchOf(id string) int64 {
 	if id == "" {
@@ -272,4 +272,3 @@ func (m *vmModule) ExecuteNewCall(ctx context.Context, call *wasm.Call, _ wasm.I
 	}
 	return vmInstance{}, nil
 }
-
